@@ -350,6 +350,21 @@ impl Ord for Value {
             return res;
         }
 
+        // Two arrays whose elements are not mutually comparable, or two maps (never partially
+        // ordered): compare them structurally so that `Equal` is only returned for values
+        // that are `==` (the order itself is arbitrary but total and consistent).
+        match (&self.inner, &other.inner) {
+            (ValueInner::Array(a), ValueInner::Array(b)) => return a.iter().cmp(b.iter()),
+            (ValueInner::Map(a), ValueInner::Map(b)) => {
+                let mut a: Vec<_> = a.iter().collect();
+                let mut b: Vec<_> = b.iter().collect();
+                a.sort_by(|x, y| x.0.cmp(y.0));
+                b.sort_by(|x, y| x.0.cmp(y.0));
+                return a.into_iter().cmp(b);
+            }
+            _ => {}
+        }
+
         // Fallback: order by type for consistent ordering of incompatible types.
         // It's nonsensical but this way with the sort filter the None/undefined show up at the end
         fn type_order(v: &ValueInner) -> u8 {
